@@ -34,6 +34,7 @@ from ..lib import cz, cb, cl, CN
 
 IMPORTS = "Model.Grpc"
 CALL_TIMEOUT = 12.0
+CONV_TIMEOUT = 6.0   # conversational bidi calls (they deadlock when sending does not overlap receiving)
 MAX_HANGS = 3
 
 TRUSTED = [
@@ -56,8 +57,9 @@ ASSUMPTIONS = [
 ]
 RULE = ("services: 1..5 methods, all four cardinalities (one full-matrix service per bundle), re-cased names, request/response "
         "types local / nested / other package (child, parent, sibling, unrelated) / google.protobuf; calls: request stream "
-        "lengths 0..3 x response stream lengths 0..3, statuses before/after yields, un-overridden methods, 64 kwargs "
-        "combinations x 4 cardinalities; non-trivial = a call that carries at least one non-empty message or a non-OK status "
+        "lengths 0..3 x response stream lengths 0..3, conversational (ping-pong) use of every stream-stream method, statuses "
+        "before/after yields, un-overridden methods, 64 None/set kwargs combinations x 4 cardinalities + 260 combinations with "
+        "set-but-falsy values (timeout=0, metadata={} / []); non-trivial = a call that carries at least one non-empty message or a non-OK status "
         "or a non-None kwarg; distinct = distinct (service shape, method, request bytes, script, kwargs)")
 
 # ids of the kwarg objects in the model
@@ -231,7 +233,18 @@ def make_handler(rt, py, cs, sc, log):
         async def h(self, request):
             entry = [py, ("unfinished", None)]
             log.append(entry)
-            if cs and sc.get("interleave"):
+            if cs and sc.get("interleave") == "pingpong":
+                got = []
+                entry[1] = ("many", got)
+                k = 0
+                async for r_ in request:
+                    got.append(rt.snap(r_))
+                    if k < len(responses):
+                        yield responses[k]
+                        k += 1
+                for r in responses[k:]:
+                    yield r
+            elif cs and sc.get("interleave"):
                 got = []
                 entry[1] = ("many", got)
                 it = request.__aiter__()
@@ -288,23 +301,28 @@ def make_impl(rt, scripts, log, server_seen=None):
     return type("Impl", (rt.Base,), ns)()
 
 
+FALSY_ID = 0   # model value of a keyword argument that is set but falsy (timeout=0, metadata={} / [] / ())
+
+
 def kw_objects(flags, which):
-    """flags: [timeout?, deadline?, metadata?]; which: 0 = stub level, 1 = call level"""
+    """flags: [timeout, deadline, metadata], each 0 = None, 1 = set (truthy), 2 = set but FALSY (timeout 0 /
+    empty metadata; a Deadline is always truthy); which: 0 = stub level, 1 = call level.
+    Returns (kwargs dict, ids of the values in the model)."""
     from grpclib.metadata import Deadline
 
     out, ids = {}, []
     if flags[0]:
-        out["timeout"] = (T_STUB, T_CALL)[which]
+        out["timeout"] = (T_STUB, T_CALL)[which] if flags[0] == 1 else (0.0, 0)[which]
     if flags[1]:
         out["deadline"] = Deadline.from_timeout((D_STUB, D_CALL)[which])
     if flags[2]:
-        out["metadata"] = (MD_STUB, MD_CALL)[which]
+        out["metadata"] = (MD_STUB, MD_CALL)[which] if flags[2] == 1 else ({}, [])[which]
     for k, f in zip(("timeout", "deadline", "metadata"), flags):
-        ids.append(KW_IDS[k][which] if f else None)
+        ids.append(None if not f else KW_IDS[k][which] if f == 1 else FALSY_ID)
     return out, ids
 
 
-def arg_object(rt, case):
+def arg_object(rt, case, got_reply=None):
     vals = [rt.value(r) for r in case["reqs"]]
     if not case["iter"]:
         return vals[0], [rt.snap(v) for v in vals[:1]]
@@ -314,6 +332,15 @@ def arg_object(rt, case):
         return tuple(vals), snaps
     if kind == "gen":
         return (v for v in vals), snaps
+    if kind == "conversation":
+        # request i+1 is produced only after the caller has RECEIVED response i (ping-pong): sending must
+        # overlap receiving, which ServiceStub._stream_stream does with a background sending task
+        async def conv():
+            for v in vals:
+                yield v
+                await got_reply.wait()
+                got_reply.clear()
+        return conv(), snaps
     if kind == "agen":
         async def ag():
             for v in vals:
@@ -332,7 +359,10 @@ async def real_call(rt, case):
     impl = make_impl(rt, case["scripts"], log, server_seen if case.get("kwargs") else None)
     skw, skw_ids = kw_objects(case.get("kwargs", {}).get("stub", [0, 0, 0]), 0)
     ckw, ckw_ids = kw_objects(case.get("kwargs", {}).get("call", [0, 0, 0]), 1)
-    obs = {"rec": rec, "log": log, "server_seen": server_seen, "msgs": [], "end": ("done",), "kw_objs": (skw, ckw)}
+    obs = {"rec": rec, "log": log, "server_seen": server_seen, "msgs": [], "end": ("done",), "kw_objs": (skw, ckw),
+           "kw_ids": (skw_ids, ckw_ids)}
+    limit = CONV_TIMEOUT if case.get("iter_kind") == "conversation" else CALL_TIMEOUT
+    got_reply = asyncio.Event()
 
     async def body():
         async with ChannelFor([impl]) as ch:
@@ -343,13 +373,14 @@ async def real_call(rt, case):
                 return orig(name, cardinality, request_type, reply_type, **kw)
             ch.request = request
             stub = rt.Stub(ch, **skw)
-            arg, _ = arg_object(rt, case)
+            arg, _ = arg_object(rt, case, got_reply)
             try:
                 res = getattr(stub, case["py"])(arg, **ckw)
                 if hasattr(res, "__aiter__"):
                     obs["shape"] = "iterator"
                     async for r in res:
                         obs["msgs"].append(rt.snap(r))
+                        got_reply.set()
                 else:
                     obs["shape"] = "single"
                     r = await res
@@ -366,9 +397,9 @@ async def real_call(rt, case):
                     obs["msgs"] = []
             await asyncio.sleep(0)
     try:
-        await asyncio.wait_for(body(), CALL_TIMEOUT)
+        await asyncio.wait_for(body(), limit)
     except asyncio.TimeoutError:
-        obs["end"] = ("hang", f"no result within {CALL_TIMEOUT}s")
+        obs["end"] = ("hang", f"no result within {limit}s")
     except Exception as e:  # noqa
         obs["end"] = ("exc", f"harness/transport: {type(e).__name__}: {e}")
     return obs
@@ -559,6 +590,16 @@ def call_cases(ctx, rt, i, thorough):
             sc = {"gen": m.ss, "resp": resp(b), "status": None,
                   "interleave": m.cs and m.ss and not rt.dup_py(i) and rng.random() < 0.5}
             cases.append(base(a, scripts={py: sc}, feature=f"lengths req={a if m.cs else 'unary'} resp={b if m.ss else 'unary'}"))
+    # conversational use of a bidirectional method: the caller produces request i+1 only after it has seen
+    # response i; the handler answers each request as it arrives.  (What the model predicts is the same lists
+    # as for send-all-then-read: interleaving is scheduling, which the model does not express.)
+    if m.cs and m.ss and not rt.dup_py(i):
+        for n in ([1, 3] if not thorough else [1, 2, 3, 4]):
+            sc = {"gen": True, "resp": resp(n), "status": None, "interleave": "pingpong"}
+            c = base(n, scripts={py: sc}, feature=f"conversation (ping-pong) of {n} exchanges")
+            c["iter_kind"] = "conversation"
+            c["schedule"] = "request i+1 is yielded by the caller's async generator only after response i was received; handler yields response i on reading request i"
+            cases.append(c)
     # statuses: before any response, after k yields
     statuses = [1, 3, 5, 7, 9, 12, 13, 14, 16] if thorough else [rng.choice([1, 3, 5, 7, 13, 16]), 12]
     for st in statuses:
@@ -599,16 +640,40 @@ def call_cases(ctx, rt, i, thorough):
 
 
 def kwargs_cases(ctx, rt):
-    """64 combinations x every method of the (full-matrix) service"""
+    """64 None/set combinations x every method of the (full-matrix) service, then every combination in which at
+    least one value is SET BUT FALSY (timeout=0 / 0.0, metadata={} / []): 18 x 18 - 64 = 260 more, rotated over the
+    four cardinalities in the quick tier, on every method in the thorough tier"""
     cases = []
+
+    def one(i, stub, call):
+        m, py = rt.svc.methods[i], rt.py[i]
+        sc = {"gen": m.ss, "resp": [pick_ref(ctx.rng, m.out_t, rt)], "status": None}
+        c = {"kind": "call", "method": i, "py": py, "iter": m.cs, "reqs": [pick_ref(ctx.rng, m.in_t, rt)],
+             "scripts": {py: sc}, "kwargs": {"stub": stub, "call": call}, "wellformed": True,
+             "feature": f"kwargs stub={stub} call={call}"}
+        if resolved_timeout_is_zero(c):
+            # the resolved timeout is 0: the call is expired before it starts (grpclib); only what reaches
+            # channel.request is compared
+            c["reqonly"] = True
+        return c
+
     for bits in range(64):
         stub = [(bits >> k) & 1 for k in (0, 1, 2)]
         call = [(bits >> k) & 1 for k in (3, 4, 5)]
-        for i, (m, py) in enumerate(zip(rt.svc.methods, rt.py)):
-            sc = {"gen": m.ss, "resp": [pick_ref(ctx.rng, m.out_t, rt)], "status": None}
-            cases.append({"kind": "call", "method": i, "py": py, "iter": m.cs, "reqs": [pick_ref(ctx.rng, m.in_t, rt)],
-                          "scripts": {py: sc}, "kwargs": {"stub": stub, "call": call}, "wellformed": True,
-                          "feature": f"kwargs stub={stub} call={call}"})
+        for i in range(len(rt.svc.methods)):
+            cases.append(one(i, stub, call))
+    n = 0
+    states = [(t, d, md) for t in (0, 1, 2) for d in (0, 1) for md in (0, 1, 2)]
+    for stub in states:
+        for call in states:
+            if 2 not in stub and 2 not in call:
+                continue
+            if ctx.thorough:
+                for i in range(len(rt.svc.methods)):
+                    cases.append(one(i, list(stub), list(call)))
+            else:
+                cases.append(one(n % len(rt.svc.methods), list(stub), list(call)))
+            n += 1
     return cases
 
 
@@ -635,37 +700,46 @@ def model_call_expr(rt, case, snaps):
     _, sids = kw_ids(kwc["stub"], 0)
     _, cids = kw_ids(kwc["call"], 1)
     arg = ("(ArgIter [" + "; ".join(msg_lit(s) for s in snaps) + "])") if case["iter"] else f"(ArgOne {msg_lit(snaps[0])})"
-    f = "cv_obs_notrace" if case.get("notrace") else "cv_obs"
+    f = "cv_obs_reqonly" if case.get("reqonly") else "cv_obs_notrace" if case.get("notrace") else "cv_obs"
     return (f"{f} (call {rt.coq_name} {impl_lit(case['scripts'], rt)} {kw_lit(sids)} {coq_str(case['py'])} {arg} {kw_lit(cids)})")
 
 
 def kw_ids(flags, which):
-    ids = [KW_IDS[k][which] if f else None for k, f in zip(("timeout", "deadline", "metadata"), flags)]
+    ids = [None if not f else KW_IDS[k][which] if f == 1 else FALSY_ID for k, f in zip(("timeout", "deadline", "metadata"), flags)]
     return None, ids
 
 
-def observed_kw_ids(obs_kw, skw, ckw):
+def observed_kw_ids(obs_kw, skw, ckw, sids, cids):
     out = []
-    for k in ("timeout", "deadline", "metadata"):
+    for n, k in enumerate(("timeout", "deadline", "metadata")):
         v = obs_kw.get(k, "missing")
         if v is None:
             out.append(None)
-        elif k in ckw and (v is ckw[k] or v == ckw[k]):
-            out.append(KW_IDS[k][1])
-        elif k in skw and (v is skw[k] or v == skw[k]):
-            out.append(KW_IDS[k][0])
+        elif k in ckw and (v is ckw[k] or (type(v) is type(ckw[k]) and v == ckw[k])):
+            out.append(cids[n])
+        elif k in skw and (v is skw[k] or (type(v) is type(skw[k]) and v == skw[k])):
+            out.append(sids[n])
         else:
             out.append(-1)
     return out
+
+
+def resolved_timeout_is_zero(case):
+    kwc = case.get("kwargs")
+    if not kwc:
+        return False
+    return kwc["call"][0] == 2 or (kwc["call"][0] == 0 and kwc["stub"][0] == 2)
 
 
 def expected_call_cv(rt, case, obs):
     if len(obs["rec"]) != 1:
         return cl([cs_(f"{len(obs['rec'])} channel.request calls")])
     name, cardv, rtype, ptype, kw = obs["rec"][0]
-    ids = observed_kw_ids(kw, *obs["kw_objs"])
+    ids = observed_kw_ids(kw, *obs["kw_objs"], *obs["kw_ids"])
     rinfo = cl([cs_(name), cz(card_num(cardv)), cs_(rt.typename(rtype)), cs_(rt.typename(ptype)),
                 cl([cv_optz(i) for i in ids])])
+    if case.get("reqonly"):
+        return rinfo
     end = obs["end"]
     cres = cv_cres(obs["msgs"], end)
     if case.get("notrace"):
@@ -694,7 +768,10 @@ def oracle_call(rt, case, obs, snaps):
     m, py = rt.svc.methods[i], rt.py[i]
     why = []
     if obs["end"][0] == "hang":
-        return [f"the call did not complete within {CALL_TIMEOUT}s"]
+        if case.get("iter_kind") == "conversation":
+            return [f"conversational stream-stream call deadlocked ({obs['end'][1]}): {case.get('schedule')}; handler saw "
+                    f"{[e[1] for e in obs['log']]}, caller received {len(obs['msgs'])} of {len(case['scripts'][py]['resp'])} responses"]
+        return [f"the call did not complete ({obs['end'][1]})"]
     # ---- what reached the channel
     if len(obs["rec"]) != 1:
         return [f"the stub opened {len(obs['rec'])} requests"]
@@ -711,6 +788,8 @@ def oracle_call(rt, case, obs, snaps):
         want = ckw[k] if k in ckw else skw.get(k)
         if kw.get(k, "missing") is not want and kw.get(k, "missing") != want:
             why.append(f"{k} given to channel.request is {kw.get(k)!r}, expected {want!r} (call level wins over stub level)")
+    if case.get("reqonly"):
+        return why   # resolved timeout is 0: the call is expired before it starts; nothing further to expect
     if case.get("kwargs"):
         if len(obs["server_seen"]) != 1:
             why.append(f"server saw {len(obs['server_seen'])} requests")
@@ -892,25 +971,28 @@ def run(ctx):
                 work.append((rt, c))
     full = [rt for rt in rts if len(rt.svc.methods) == 4 and not rt.svc.collision
             and {(m.cs, m.ss) for m in rt.svc.methods} == set(CARD_NUM)]
-    for rt in (full if ctx.thorough else full[:1]):
+    for rt in (full[:6] if ctx.thorough else full[:1]):
         for c in kwargs_cases(ctx, rt):
             work.append((rt, c))
     if not full:
         ctx.fail("crash", "no full-matrix service was generated: the 64 kwargs combinations were not run", no_input=True,
                  theorem_or_correspondence="kwargs precedence")
 
-    hangs = [0]
+    hangs, conv_hangs = [0], [0]
 
     async def run_all():
         results = []
         for rt, c in work:
-            if hangs[0] >= MAX_HANGS:
+            conv = c.get("iter_kind") == "conversation"
+            if hangs[0] >= MAX_HANGS or (conv and conv_hangs[0] >= 2):
                 results.append(None)
                 continue
             if c["kind"] == "call" and rt.dup_py(c["method"]):
                 j = len(rt.py) - 1 - rt.py[::-1].index(c["py"])
                 mj, mi = rt.svc.methods[j], rt.svc.methods[c["method"]]
-                if mj.cs != mi.cs or (mi.cs and mj.in_t != mi.in_t):
+                # (also when only the request CLASS differs: the bytes would be re-parsed as another message type,
+                #  and the model keeps bytes unchanged under such a re-tagging, which is exact only for compatible types)
+                if mj.cs != mi.cs or mj.in_t != mi.in_t:
                     results.append("shape")
                     continue
             try:
@@ -918,12 +1000,17 @@ def run(ctx):
             except Exception as e:  # noqa
                 obs = {"rec": [], "log": [], "msgs": [], "end": ("exc", f"harness: {type(e).__name__}: {e}"), "kw_objs": ({}, {}), "server_seen": []}
             if obs["end"][0] == "hang":
-                hangs[0] += 1
+                if conv:
+                    conv_hangs[0] += 1   # (own budget: a deadlocked conversation must not stop the other calls)
+                else:
+                    hangs[0] += 1
             results.append(obs)
         return results
     t1 = time.time()
     results = asyncio.run(run_all())
     ctx.notes.append(f"{len(work)} real calls over ChannelFor: {time.time() - t1:.1f}s")
+    if conv_hangs[0]:
+        ctx.notes.append(f"{conv_hangs[0]} conversational stream-stream calls deadlocked (further ones skipped after 2)")
     if hangs[0] >= MAX_HANGS:
         ctx.notes.append(f"{MAX_HANGS} calls hung; the remaining real calls were skipped")
 
